@@ -128,36 +128,80 @@ impl NodeId {
     {
         Ancestors::new(arena, self)
     }
-    #[verifier::external_body]
-    pub fn predecessors<T>(self, arena: &Arena<T>) -> Predecessors<'_, T> {
+    pub fn predecessors<T>(self, arena: &Arena<T>) -> (r: Predecessors<'_, T>)
+        // @props C09
+        ensures
+            r.0.arena == arena && r.0.node == Some(self),
+    {
         Predecessors::new(arena, self)
     }
-    #[verifier::external_body]
-    pub fn preceding_siblings<T>(self, arena: &Arena<T>) -> PrecedingSiblings<'_, T> {
+    pub fn preceding_siblings<T>(self, arena: &Arena<T>) -> (r: PrecedingSiblings<'_, T>)
+        // @props C09 C10
+        requires
+            arena.wf(),
+            arena.live(self),
+        ensures
+            r.0.arena == arena,
+            // @ob C09.preceding_siblings_yield_the_documented_sequence C09 C10
+            forall|w: Ranks| #[trigger]
+                ranked(arena.nodes@, w) ==> deq(arena.nodes@, r.0.head, r.0.tail, walk(arena.nodes@, w, self, false), false),
+    {
         PrecedingSiblings::new(arena, self)
     }
-    #[verifier::external_body]
-    pub fn following_siblings<T>(self, arena: &Arena<T>) -> FollowingSiblings<'_, T> {
+    pub fn following_siblings<T>(self, arena: &Arena<T>) -> (r: FollowingSiblings<'_, T>)
+        // @props C09 C10
+        requires
+            arena.wf(),
+            arena.live(self),
+        ensures
+            r.0.arena == arena,
+            // @ob C09.following_siblings_yield_the_documented_sequence C09 C10
+            forall|w: Ranks| #[trigger]
+                ranked(arena.nodes@, w) ==> deq(arena.nodes@, r.0.head, r.0.tail, walk(arena.nodes@, w, self, true), true),
+    {
         FollowingSiblings::new(arena, self)
     }
-    #[verifier::external_body]
-    pub fn children<T>(self, arena: &Arena<T>) -> Children<'_, T> {
+    pub fn children<T>(self, arena: &Arena<T>) -> (r: Children<'_, T>)
+        // @props C09 C10
+        requires
+            arena.wf(),
+            arena.has(self),
+        ensures
+            r.0.arena == arena,
+            // @ob C09.children_yield_the_documented_sequence C09 C10
+            forall|w: Ranks| #[trigger]
+                ranked(arena.nodes@, w) ==> deq(arena.nodes@, r.0.head, r.0.tail, children_seq(arena.nodes@, w, self.idx()), true),
+    {
         Children::new(arena, self)
     }
-    #[verifier::external_body]
-    pub fn reverse_children<T>(self, arena: &Arena<T>) -> ReverseChildren<'_, T> {
+    pub fn reverse_children<T>(self, arena: &Arena<T>) -> (r: ReverseChildren<'_, T>)
+        // @props C09
+        requires
+            arena.has(self),
+        ensures
+            r.0.arena == arena && r.0.node == arena.at(self).last_child,
+    {
         ReverseChildren::new(arena, self)
     }
-    #[verifier::external_body]
-    pub fn descendants<T>(self, arena: &Arena<T>) -> Descendants<'_, T> {
+    pub fn descendants<T>(self, arena: &Arena<T>) -> (r: Descendants<'_, T>)
+        // @props C09
+        ensures
+            r.0.arena == arena && r.0.root == self && r.0.next == Some(NodeEdge::Start(self)),
+    {
         Descendants::new(arena, self)
     }
-    #[verifier::external_body]
-    pub fn traverse<T>(self, arena: &Arena<T>) -> Traverse<'_, T> {
+    pub fn traverse<T>(self, arena: &Arena<T>) -> (r: Traverse<'_, T>)
+        // @props C09
+        ensures
+            r.arena == arena && r.root == self && r.next == Some(NodeEdge::Start(self)),
+    {
         Traverse::new(arena, self)
     }
-    #[verifier::external_body]
-    pub fn reverse_traverse<T>(self, arena: &Arena<T>) -> ReverseTraverse<'_, T> {
+    pub fn reverse_traverse<T>(self, arena: &Arena<T>) -> (r: ReverseTraverse<'_, T>)
+        // @props C09
+        ensures
+            r.arena == arena && r.root == self && r.next == Some(NodeEdge::End(self)),
+    {
         ReverseTraverse::new(arena, self)
     }
     pub fn detach<T>(self, arena: &mut Arena<T>)
@@ -2123,14 +2167,36 @@ impl<'a, T> Ancestors<'a, T> {
 #[derive(Clone)]
 pub struct Predecessors<'a, T>(pub Iter<'a, T>);
 impl<'a, T> Predecessors<'a, T> {
-    #[verifier::external_body]
-    pub fn new(arena: &'a Arena<T>, node: NodeId) -> Self {
+    pub fn new(arena: &'a Arena<T>, node: NodeId) -> (r: Self)
+        // @props C09
+        ensures
+            // @ob C09.predecessors_start_at_the_node C09
+            r.0.arena == arena && r.0.node == Some(node),
+    {
+        proof {
+            axiom_into_some(node);
+        }
         Self({ Iter::new(arena, node) })
     }
 }
 impl<'a, T> Predecessors<'a, T> {
-    #[verifier::external_body]
-    pub fn next(&mut self) -> Option<NodeId> {
+    pub fn next(&mut self) -> (r: Option<NodeId>)
+        // @props C09
+        requires
+            old(self).0.node is Some ==> old(self).0.arena.has(old(self).0.node->0),
+        ensures
+            // @ob C09.predecessors_yield_the_cursor_then_previous_sibling_or_parent C09
+            r == old(self).0.node,
+            final(self).0.arena == old(self).0.arena,
+            final(self).0.node == (match old(self).0.node {
+                Some(x) => if old(self).0.arena.at(x).previous_sibling is Some {
+                    old(self).0.arena.at(x).previous_sibling
+                } else {
+                    old(self).0.arena.at(x).parent
+                },
+                None => None,
+            }),
+    {
         let node = self.0.node.take()?;
         self.0.node = {
             let node = &self.0.arena[node];
@@ -2738,14 +2804,64 @@ impl<'a, T> Children<'a, T> {
 #[derive(Clone)]
 pub struct ReverseChildren<'a, T>(pub Iter<'a, T>);
 impl<'a, T> ReverseChildren<'a, T> {
-    #[verifier::external_body]
-    pub fn new(arena: &'a Arena<T>, node: NodeId) -> Self {
+    pub fn new(arena: &'a Arena<T>, node: NodeId) -> (r: Self)
+        // @props C09
+        requires
+            arena.has(node),
+        ensures
+            // @ob C09.reverse_children_start_at_the_last_child C09
+            r.0.arena == arena && r.0.node == arena.at(node).last_child,
+    {
+        proof {
+            axiom_into_self(arena.at(node).last_child);
+        }
         Self({ Iter::new(arena, arena[node].last_child) })
     }
 }
 impl<'a, T> ReverseChildren<'a, T> {
-    #[verifier::external_body]
-    pub fn next(&mut self) -> Option<NodeId> {
+    pub fn next(&mut self) -> (r: Option<NodeId>)
+        // @props C09 C02
+        requires
+            old(self).0.node is Some ==> old(self).0.arena.has(old(self).0.node->0),
+        ensures
+            // @ob C09.reverse_children_yield_the_cursor_then_its_previous_sibling C09
+            r == old(self).0.node,
+            final(self).0.arena == old(self).0.arena,
+            final(self).0.node == (match old(self).0.node {
+                Some(x) => old(self).0.arena.at(x).previous_sibling,
+                None => None,
+            }),
+            // @ob C09.reverse_children_follow_the_documented_sequence C09 C02
+            forall|w: Ranks|
+                ranked(old(self).0.arena.nodes@, w) && links_ok(old(self).0.arena.nodes@) && old(self).0.node is Some && tgt_ok(
+                    old(self).0.arena.nodes@,
+                    old(self).0.node,
+                ) ==> #[trigger] walk(old(self).0.arena.nodes@, w, old(self).0.node->0, false) == seq![old(self).0.node->0] + (
+                if final(self).0.node is Some {
+                    walk(old(self).0.arena.nodes@, w, final(self).0.node->0, false)
+                } else {
+                    Seq::empty()
+                }),
+    {
+        proof {
+            if self.0.node is Some {
+                assert forall|w: Ranks|
+                    ranked(self.0.arena.nodes@, w) && links_ok(self.0.arena.nodes@) && tgt_ok(self.0.arena.nodes@, self.0.node) implies #[trigger] walk(
+                    self.0.arena.nodes@,
+                    w,
+                    self.0.node->0,
+                    false,
+                ) == seq![self.0.node->0] + (if self.0.arena.at(self.0.node->0).previous_sibling is Some {
+                    walk(self.0.arena.nodes@, w, self.0.arena.at(self.0.node->0).previous_sibling->0, false)
+                } else {
+                    Seq::empty()
+                }) by {
+                    lemma_links_live(self.0.arena.nodes@, self.0.node->0.idx());
+                    assert(ranked_at(self.0.arena.nodes@, w, self.0.node->0.idx()));
+                    lemma_walk(self.0.arena.nodes@, w, self.0.node->0, false);
+                }
+            }
+        }
         let node = self.0.node.take()?;
         self.0.node = {
             let node = &self.0.arena[node];
@@ -2757,8 +2873,11 @@ impl<'a, T> ReverseChildren<'a, T> {
 #[derive(Clone)]
 pub struct Descendants<'a, T>(pub Traverse<'a, T>);
 impl<'a, T> Descendants<'a, T> {
-    #[verifier::external_body]
-    pub fn new(arena: &'a Arena<T>, current: NodeId) -> Self {
+    pub fn new(arena: &'a Arena<T>, current: NodeId) -> (r: Self)
+        // @props C09
+        ensures
+            r.0.arena == arena && r.0.root == current && r.0.next == Some(NodeEdge::Start(current)),
+    {
         Self(Traverse::new(arena, current))
     }
 }
@@ -2787,8 +2906,23 @@ pub enum NodeEdge {
     End(NodeId),
 }
 impl NodeEdge {
-    #[verifier::external_body]
-    pub fn next_traverse<T>(self, arena: &Arena<T>) -> Option<Self> {
+    pub fn next_traverse<T>(self, arena: &Arena<T>) -> (r: Option<Self>)
+        // @props C09
+        requires
+            arena.has(edge_node(self)),
+        ensures
+            // @ob C09.next_traverse_is_the_documented_depth_first_step C09
+            r == next_edge(arena.nodes@, self),
+            // @ob C09.prev_traverse_undoes_next_traverse C09
+            (links_ok(arena.nodes@) && tgt_ok(arena.nodes@, Some(edge_node(self))) && r is Some) ==> prev_edge(arena.nodes@, r->0) == Some(
+                self,
+            ),
+    {
+        proof {
+            if links_ok(arena.nodes@) && tgt_ok(arena.nodes@, Some(edge_node(self))) {
+                lemma_edge_inverse(arena.nodes@, self);
+            }
+        }
         match self {
             NodeEdge::Start(node) => match arena[node].first_child {
                 Some(first_child) => Some(NodeEdge::Start(first_child)),
@@ -2806,8 +2940,23 @@ impl NodeEdge {
             }
         }
     }
-    #[verifier::external_body]
-    pub fn prev_traverse<T>(self, arena: &Arena<T>) -> Option<Self> {
+    pub fn prev_traverse<T>(self, arena: &Arena<T>) -> (r: Option<Self>)
+        // @props C09
+        requires
+            arena.has(edge_node(self)),
+        ensures
+            // @ob C09.prev_traverse_is_the_documented_reverse_step C09
+            r == prev_edge(arena.nodes@, self),
+            // @ob C09.next_traverse_undoes_prev_traverse C09
+            (links_ok(arena.nodes@) && tgt_ok(arena.nodes@, Some(edge_node(self))) && r is Some) ==> next_edge(arena.nodes@, r->0) == Some(
+                self,
+            ),
+    {
+        proof {
+            if links_ok(arena.nodes@) && tgt_ok(arena.nodes@, Some(edge_node(self))) {
+                lemma_edge_inverse(arena.nodes@, self);
+            }
+        }
         match self {
             NodeEdge::End(node) => match arena[node].last_child {
                 Some(last_child) => Some(NodeEdge::End(last_child)),
@@ -2833,29 +2982,60 @@ pub struct Traverse<'a, T> {
     pub next: Option<NodeEdge>,
 }
 impl<'a, T> Traverse<'a, T> {
-    #[verifier::external_body]
-    pub fn new(arena: &'a Arena<T>, current: NodeId) -> Self {
+    pub fn new(arena: &'a Arena<T>, current: NodeId) -> (r: Self)
+        // @props C09
+        ensures
+            // @ob C09.traverse_starts_at_the_start_edge_of_the_node C09
+            r.arena == arena && r.root == current && r.next == Some(NodeEdge::Start(current)),
+    {
         Self {
             arena,
             root: current,
             next: Some(NodeEdge::Start(current)),
         }
     }
-    #[verifier::external_body]
-    pub fn next_of_next(&self, next: NodeEdge) -> Option<NodeEdge> {
+    pub fn next_of_next(&self, next: NodeEdge) -> (r: Option<NodeEdge>)
+        // @props C09
+        requires
+            self.arena.has(edge_node(next)),
+        ensures
+            // @ob C09.traverse_stops_exactly_at_the_end_edge_of_its_root C09
+            r == (if next == NodeEdge::End(self.root) {
+                None
+            } else {
+                next_edge(self.arena.nodes@, next)
+            }),
+    {
         if next == NodeEdge::End(self.root) {
             return None;
         }
         next.next_traverse(self.arena)
     }
-    #[verifier::external_body]
-    pub fn arena(&self) -> &Arena<T> {
+    pub fn arena(&self) -> (r: &Arena<T>)
+        ensures
+            r == self.arena,
+    {
         self.arena
     }
 }
 impl<T> Traverse<'_, T> {
-    #[verifier::external_body]
-    pub fn next(&mut self) -> Option<NodeEdge> {
+    pub fn next(&mut self) -> (r: Option<NodeEdge>)
+        // @props C09
+        requires
+            old(self).next is Some ==> old(self).arena.has(edge_node(old(self).next->0)),
+        ensures
+            // @ob C09.traverse_yields_the_pending_edge_and_steps_depth_first C09
+            r == old(self).next,
+            final(self).arena == old(self).arena && final(self).root == old(self).root,
+            final(self).next == (match old(self).next {
+                Some(e) => if e == NodeEdge::End(old(self).root) {
+                    None
+                } else {
+                    next_edge(old(self).arena.nodes@, e)
+                },
+                None => None,
+            }),
+    {
         let next = self.next.take()?;
         self.next = self.next_of_next(next);
         Some(next)
@@ -2868,16 +3048,30 @@ pub struct ReverseTraverse<'a, T> {
     pub next: Option<NodeEdge>,
 }
 impl<'a, T> ReverseTraverse<'a, T> {
-    #[verifier::external_body]
-    pub fn new(arena: &'a Arena<T>, current: NodeId) -> Self {
+    pub fn new(arena: &'a Arena<T>, current: NodeId) -> (r: Self)
+        // @props C09
+        ensures
+            // @ob C09.reverse_traverse_starts_at_the_end_edge_of_the_node C09
+            r.arena == arena && r.root == current && r.next == Some(NodeEdge::End(current)),
+    {
         Self {
             arena,
             root: current,
             next: Some(NodeEdge::End(current)),
         }
     }
-    #[verifier::external_body]
-    pub fn next_of_next(&self, next: NodeEdge) -> Option<NodeEdge> {
+    pub fn next_of_next(&self, next: NodeEdge) -> (r: Option<NodeEdge>)
+        // @props C09
+        requires
+            self.arena.has(edge_node(next)),
+        ensures
+            // @ob C09.reverse_traverse_stops_exactly_at_the_start_edge_of_its_root C09
+            r == (if next == NodeEdge::Start(self.root) {
+                None
+            } else {
+                prev_edge(self.arena.nodes@, next)
+            }),
+    {
         if next == NodeEdge::Start(self.root) {
             return None;
         }
@@ -2885,8 +3079,23 @@ impl<'a, T> ReverseTraverse<'a, T> {
     }
 }
 impl<T> ReverseTraverse<'_, T> {
-    #[verifier::external_body]
-    pub fn next(&mut self) -> Option<NodeEdge> {
+    pub fn next(&mut self) -> (r: Option<NodeEdge>)
+        // @props C09
+        requires
+            old(self).next is Some ==> old(self).arena.has(edge_node(old(self).next->0)),
+        ensures
+            // @ob C09.reverse_traverse_yields_the_pending_edge_and_steps_backwards C09
+            r == old(self).next,
+            final(self).arena == old(self).arena && final(self).root == old(self).root,
+            final(self).next == (match old(self).next {
+                Some(e) => if e == NodeEdge::Start(old(self).root) {
+                    None
+                } else {
+                    prev_edge(old(self).arena.nodes@, e)
+                },
+                None => None,
+            }),
+    {
         let next = self.next.take()?;
         self.next = self.next_of_next(next);
         Some(next)
